@@ -2,7 +2,11 @@
 
 package gateway
 
-import "sync"
+import (
+	"sync"
+
+	"github.com/vektah/gqlparser/v2/ast"
+)
 
 // This file is only compiled with the build tag "verif". It gives the verification harness in /verif
 // in-process access to the executor's unexported stitching helpers; it adds no behaviour.
@@ -25,6 +29,13 @@ func VerifPointData(point string) (field string, index int, id string, err error
 // VerifIsListElement runs isListElement.
 func VerifIsListElement(point string) bool {
 	return isListElement(point)
+}
+
+// VerifFindInsertionPoints runs executorFindInsertionPoints from one starting branch, the way executeOneStep
+// (start = the step's own realised insertion point) and scrubInsertionIDs (start empty) call it.
+func VerifFindInsertionPoints(targetPoints []string, selectionSet ast.SelectionSet, result map[string]interface{}, start []string, fragmentDefs ast.FragmentDefinitionList) ([][]string, error) {
+	ctx := &ExecutionContext{logger: verifSilentLogger{}}
+	return executorFindInsertionPoints(ctx, &sync.Mutex{}, targetPoints, selectionSet, result, [][]string{copyStrings(start)}, fragmentDefs)
 }
 
 type verifSilentLogger struct{}
